@@ -253,6 +253,84 @@ fn main() {
             }
             extra = json!({"delivery_wait_ms_after_the_overrun": waits});
         }
+        // C03 / C04: a long-lived thread that has started thousands of traces, while other threads
+        // keep their first trace open for a long time: every trace stays its own
+        "many-traces-per-thread-cancelable" => {
+            let rep = Rep::default();
+            fastrace::set_reporter(rep.clone(), Config::default().cancelable(true).report_interval(Duration::from_millis(1)));
+            let progress = Arc::new(AtomicUsize::new(0));
+            let done = Arc::new(AtomicBool::new(false));
+            let mut victims = vec![];
+            for (k, start_at) in [1usize, 4500, 9000, 13500].into_iter().enumerate() {
+                let progress = progress.clone();
+                let done = done.clone();
+                victims.push(std::thread::spawn(move || {
+                    while progress.load(Ordering::SeqCst) < start_at {
+                        std::thread::sleep(Duration::from_micros(200));
+                    }
+                    // this thread's first trace, kept open while the busy thread goes on
+                    let root = Span::root("victim", SpanContext::new(TraceId(0x71C0 + k as u128), SpanId(1)));
+                    drop(Span::enter_with_parent("victim-child", &root));
+                    while !done.load(Ordering::SeqCst) {
+                        std::thread::sleep(Duration::from_millis(1));
+                    }
+                    root.add_event(Event::new("late"));
+                    drop(root);
+                }));
+            }
+            let n = 18_000u128;
+            for i in 0..n {
+                let root = Span::root("busy", SpanContext::new(TraceId(0x100_0000 + i), SpanId(1)));
+                drop(Span::enter_with_parent("busy-child", &root));
+                if i % 3 == 2 {
+                    root.cancel();
+                }
+                drop(root);
+                c();
+                progress.store(i as usize + 1, Ordering::SeqCst);
+                if i % 512 == 511 {
+                    // let the background collector keep up: no queue may fill
+                    std::thread::sleep(Duration::from_millis(3));
+                }
+            }
+            std::thread::sleep(Duration::from_millis(20));
+            done.store(true, Ordering::SeqCst);
+            for v in victims {
+                v.join().unwrap();
+            }
+            fastrace::flush();
+            std::thread::sleep(Duration::from_millis(10));
+            fastrace::flush();
+            let recs = rep.0.lock().unwrap();
+            let mut per: std::collections::HashMap<u128, Vec<String>> = std::collections::HashMap::new();
+            for r in recs.iter() {
+                per.entry(r.trace_id.0).or_default().push(r.name.to_string());
+            }
+            let mut bad: Vec<String> = vec![];
+            for k in 0..4u128 {
+                let mut got = per.get(&(0x71C0 + k)).cloned().unwrap_or_default();
+                got.sort();
+                if got != ["victim", "victim-child"] {
+                    bad.push(format!("the trace kept open by thread {} (its first) was delivered as {:?}", k, got));
+                }
+            }
+            let mut kept_ok = 0;
+            for i in 0..n {
+                let got = per.get(&(0x100_0000 + i)).map(|v| v.len()).unwrap_or(0);
+                let want = if i % 3 == 2 { 0 } else { 2 };
+                if got != want {
+                    if bad.len() < 6 {
+                        bad.push(format!("trace #{} of the busy thread ({}): {} records, expected {}", i, if want == 0 { "cancelled" } else { "kept" }, got, want));
+                    }
+                } else {
+                    kept_ok += 1;
+                }
+            }
+            extra = json!({"traces_started_on_one_thread": n as u64, "of_them_as_expected": kept_ok, "long_lived_first_traces_of_other_threads": 4});
+            if !bad.is_empty() {
+                panic!("{}", bad.join("; "));
+            }
+        }
         // C07: report() runs on the library's threads; a reporter that needs an ordinary amount of
         // stack (well inside the default 2 MiB of a Rust thread) must not bring the process down
         "reporter-needs-stack" => {
